@@ -117,13 +117,19 @@ def _classify_ordering(prog, f, c, it, txt, key, pm):
                 and gs[0].key == astx.u(gs[0].loop.target.elts[1]) and gs[0].member == astx.u(gs[0].loop.target.elts[0]):
             return True, "grouping idiom: candidates grouped under their score (the mapping's value), groups sorted by the score alone"
         return False, "sorted by first component of items whose keys are not provably scores"
+    # (a') the same idiom over the keys alone: sorted(<score -> group>) orders the scores themselves
+    if nm == "sorted" and key is None and isinstance(c.args[0] if c.args else None, ast.Name):
+        gs = [g for g in accum.groupings(f.node) if g.dict_name == c.args[0].id]
+        if len(gs) == 1 and astx.u(gs[0].loop.iter).endswith(".items()") and isinstance(gs[0].loop.target, ast.Tuple) and len(gs[0].loop.target.elts) == 2 \
+                and gs[0].key == astx.u(gs[0].loop.target.elts[1]) and gs[0].member == astx.u(gs[0].loop.target.elts[0]):
+            return True, "grouping idiom: candidates grouped under their score (the mapping's value), the scores (keys) sorted"
     # (b) key is a size: len(x)
     if isinstance(key, ast.Lambda) and re.fullmatch(rf"len\({key.args.args[0].arg}\)", astx.u(key.body)):
         if nm == "sorted":
             return True, "sorted by len only (stable; ties keep the input order of a list that is not an outcome)"
     # (c) iterable of integers (dict keyed by len(...), range, counts)
-    if astx.u(it).endswith(".keys()"):
-        d = astx.u(it)[: -len(".keys()")]
+    if isinstance(it, (ast.Name, ast.Attribute)) or astx.u(it).endswith(".keys()"):
+        d = astx.u(it)[: -len(".keys()")] if astx.u(it).endswith(".keys()") else astx.u(it)
         ints = _dict_keys_are_sizes(f, d)
         if ints:
             return True, f"keys of `{d}` are set sizes (ints)"
